@@ -45,6 +45,9 @@ BUILT["C16"] = ("Lean 4 invariant (every held track has the block's frame count)
 BUILT["C18"] = ("Lean 4 lemmas on one labelled list: index = iteration (incl. negative indices), label lookup returns the first match, contains <-> lookup succeeds, KeyError/IndexError/TypeError cases; + real blocks of four kinds x all key kinds",
             "Proof over the model for every list and key; four real block kinds with duplicate/empty/near-equal labels are probed with every integer in range and beyond, labels, items and foreign key types; identity of results, exception classes and unchanged encoding compared.",
             NOTE, "DESIGN.md §6 C18")
+BUILT["C19"] = ("Lean 4 decision-logic theorems (accept <-> exactly the required shape; viewport halves: 2-element array/list/tuple; viewport parameter; coupled arrays (n,3); event refusals; accepted => encoded length = field width) + exhaustive enumeration of shapes rank 0-3 / extents 0-4 x dtypes and non-arrays against all 25 validated constructor arguments",
+            "Proof over the model for all argument kinds and shapes; the real constructors are enumerated exhaustively over the finite shape space the property names, comparing accept/refuse with the model and checking nBytes = bytes written for every accepted object.",
+            NOTE + " Acceptance is modelled as a function of kind and shape only.", "DESIGN.md §6 C19")
 CONT = "Lean 4 refinement proof: byte-level L0 model of add/remove/replace/setters (seek/write/truncate) simulates the list-of-blocks spec on every well-formed layout (add_sim, remove_sim, run_sim by induction over histories, any table length); "
 BUILT.update({
     "C03": (CONT + "corollary wfB(image)=true; + seeded history correspondence with Lean's wfB judging the real bytes after every call",
